@@ -230,10 +230,34 @@ def make_obs(kind, sen_eci, truth_eci, when, offset):
         return None
     vals = np.array(list(meas.calculateMeasurement(sen_eci, truth_eci, when, noisy=False).values()), dtype=float)
     vals = vals + np.array(offset[: len(vals)])
+    if kind in ("radar", "optical"):
+        # the real Observation class, built through its constructor as the sensors do: what the filter reads back from it is what was reported
+        from resonaate.data.observation import Observation
+
+        ob = Observation(julian_date=datetimeToJulianDate(when), target_id=10001, sensor_id=60001, sensor_type=kind, sensor_eci=np.asarray(sen_eci, dtype=float),
+                         measurement=meas, **{k: float(v) for k, v in zip(labels, vals)})
+        got = np.asarray(ob.measurement_states, dtype=float)
+        ob.kind = kind
+        ob.reported = vals
+        return ob
     return SimpleNamespace(
         measurement=meas, sensor_eci=sen_eci, r_matrix=meas.r_matrix, dim=len(labels),
         julian_date=datetimeToJulianDate(when), measurement_states=vals, kind=kind,
     )
+
+
+def with_states(o, vals):
+    """the same observation reporting other values: a real Observation is rebuilt through its constructor (the values are its columns)"""
+    if isinstance(o, SimpleNamespace):
+        o.measurement_states = vals
+        return o
+    from resonaate.data.observation import Observation
+
+    labels = list(o.measurement.labels)
+    ob = Observation(julian_date=o.julian_date, target_id=o.target_id, sensor_id=o.sensor_id, sensor_type=o.sensor_type,
+                     sensor_eci=np.asarray(o.sensor_eci, dtype=float), measurement=o.measurement, **{k: float(v) for k, v in zip(labels, vals)})
+    ob.kind = o.kind
+    return ob
 
 
 def new_ukf(est_x, est_p, resample, alpha=None):
@@ -301,18 +325,18 @@ def ukf_run(c, variant):
             obs.append(o)
         last = k == len(c["hist"]) - 1
         if last and variant.get("turns"):
-            for o in obs:
+            for n_, o in enumerate(obs):
                 ang = [a.name != "NOT_ANGLE" for a in o.measurement.angular_values]
-                o.measurement_states = o.measurement_states + np.array([variant["turns"] * TAU if a else 0.0 for a in ang])
+                obs[n_] = with_states(o, np.asarray(o.measurement_states, dtype=float) + np.array([variant["turns"] * TAU if a else 0.0 for a in ang]))
         if last and variant.get("rewrap"):
-            for o in obs:
-                vals = o.measurement_states.copy()
+            for n_, o in enumerate(obs):
+                vals = np.asarray(o.measurement_states, dtype=float).copy()
                 for i, a in enumerate(o.measurement.angular_values):
                     if a.name == "ANGLE_0_2PI" and vals[i] > PI:
                         vals[i] -= TAU  # same direction, represented on (-pi, pi]
                     elif a.name == "ANGLE_0_2PI" and vals[i] < 0:
                         vals[i] += TAU
-                o.measurement_states = vals
+                obs[n_] = with_states(o, vals)
         if last and variant.get("perm") is not None and len(obs) > 1:
             obs = [obs[i] for i in variant["perm"][: len(obs)] if i < len(obs)]
         f.predict(ScenarioTime(t))
